@@ -79,12 +79,14 @@ fn dispatch(cmd: &str, opts: &Opts) -> i32 {
         "C05" => props::c05::run(opts),
         "C07" => props::c07::run(opts),
         "C15" => props::c15::run(opts),
+        "C16" => props::c16::run(opts),
         "C18" => props::c18::run(opts),
         "C19" => props::c19::run(opts),
         "C20" => props::c20::run(opts),
         "C08" => props::c08::run(opts),
         "C09" => props::c09::run(opts),
         "C10" => props::c10::run(opts),
+        "C11" => props::c11::run(opts),
         "C12" => props::c12::run(opts),
         "C13" => props::c13::run(opts),
         "C14" => props::c14::run(opts),
